@@ -153,7 +153,21 @@ func H_C19_env() {
 		kvs[i] = nondetString(nondetChoice(vparam("n", 3) + 1))
 	}
 	which := []string{`env`, `$ENV`}[nondetChoice(2)]
-	code, err := Compile(vmemo_parse(which), WithEnvironLoader(func() []string { return kvs }))
+	cur := kvs
+	opt := WithEnvironLoader(func() []string { return cur })
+	if nondetBool() {
+		// history: the same option value was used before, for another compilation under
+		// another environment (an option grants the capability, it does not freeze its result)
+		cur = []string{"OLD=1", kvs0(kvs)}
+		old, err := Compile(vmemo_parse(`[env, $ENV] | length`), opt)
+		vassert(err == nil, "compiles")
+		if err == nil {
+			hRun(old, nil, 2)
+		}
+		cur = kvs
+		vreach("reused-option")
+	}
+	code, err := Compile(vmemo_parse(which), opt)
 	vassert(err == nil, "compiles")
 	if err != nil {
 		return
@@ -182,6 +196,13 @@ func H_C19_env() {
 	m2, ok := out2[0].(map[string]any)
 	vassert(ok && len(m2) == 0, "env is empty without WithEnvironLoader")
 	vreach("end")
+}
+
+func kvs0(kvs []string) string {
+	if len(kvs) > 0 {
+		return kvs[0] + "x"
+	}
+	return "K=v"
 }
 
 // H_C19_ambient: without options, compiling and running any builtin name makes no call
@@ -267,6 +288,9 @@ func vmemo_c19Builtins() []string {
 			add(name, len(fd.Args))
 		}
 	}
+	// date functions that must not depend on the process time zone, with arguments that reach the conversion
+	out = append(out, `0 | strftime("%H:%M %Z")`, `0 | todate`, `0 | date`, `0 | gmtime`, `0 | gmtime | mktime`, `0 | gmtime | todate`, `[2021,2,14,2,30,0,0,72] | strftime("%c")`, `"2021-01-01T00:00:00Z" | fromdate`,
+		`"10:20" | strptime("%H:%M")`, `"2021-03-01T00:00:00Z" | strptime("%Y-%m-%dT%H:%M:%SZ") | mktime`, `0 | dateadd("seconds"; 1)?`, `0 | todateiso8601?`, `"2021-03-01T00:00:00Z" | fromdateiso8601?`, `0 | strftime("%s %j %a")`, `1e10 | gmtime | strftime("%Y")`)
 	out = append(out, `env`, `$ENV`, `env.HOME`, `$ENV.PATH`, `import "a" as a; .`, `include "a"; .`, `input`, `[inputs]`, `$__prog_name`, `input_filename`, `get_search_list`, `"a" | modulemeta`, `$__loc__`, `@sh "x"`, `@json`)
 	return out
 }
